@@ -125,7 +125,7 @@ fn merge_all_threads(c: &Case, order: &[usize]) -> Case {
     }
     // the merged thread keeps the tightest CPU restriction any of the merged threads had
     let cpu = order.iter().filter_map(|t| c.cpus.get(*t).copied()).filter(|x| *x > 0).min().unwrap_or(0);
-    Case { threads: vec![calls], churn: vec![vec![]], start: 0, switches: vec![], jumps: vec![jumps], depths: vec![depths], cpus: vec![cpu], entropy: c.entropy }
+    Case { threads: vec![calls], churn: vec![vec![]], start: 0, switches: vec![], jumps: vec![jumps], depths: vec![depths], cpus: vec![cpu], entropy: c.entropy, kill_step: c.kill_step, prefix: c.prefix.clone(), next: c.next.clone() }
 }
 
 fn merge_two(c: &Case, a: usize, b: usize) -> Case {
@@ -175,7 +175,7 @@ pub fn minimise(
     let class = first.violation_class();
     let mut best = case;
     let mut best_res = first;
-    if let Some((start, sw)) = best_res.recorded() {
+    if let Some((start, sw)) = best_res.recorded_for(best.prefix.len()) {
         best.start = start;
         best.switches = sw;
     }
@@ -194,7 +194,7 @@ pub fn minimise(
             if let Some(r) = r {
                 if r.violation_class() == class && class.is_some() && c.size() < best.size() {
                     let mut c = c;
-                    if let Some((start, sw)) = r.recorded() {
+                    if let Some((start, sw)) = r.recorded_for(c.prefix.len()) {
                         c.start = start;
                         c.switches = sw;
                     }
@@ -222,7 +222,7 @@ pub fn minimise(
             if let Some(r) = r {
                 if r.violation_class() == class && class.is_some() && c.total_calls() <= best.total_calls() && c.threads.len() < best.threads.len() {
                     let mut c = c;
-                    if let Some((start, sw)) = r.recorded() {
+                    if let Some((start, sw)) = r.recorded_for(c.prefix.len()) {
                         c.start = start;
                         c.switches = sw;
                     }
@@ -469,4 +469,64 @@ pub fn minimise(
     }
     st.wall_s = t0.elapsed().as_secs_f64();
     (best, best_res, st)
+}
+
+
+/// Minimise a chained case (several process incarnations on one disk): drop whole earlier phases, then minimise each
+/// phase in place with the others fixed (the failing phase first), then drop the kills.
+pub fn minimise_chain(case: Case, rr: RunResult, oc: &mut OracleCache, workers: usize, budget: Duration, max_candidates: usize) -> (Case, RunResult, MinStats) {
+    let t0 = Instant::now();
+    let class = rr.violation_class();
+    let mut phases = case.phases();
+    let mut best_rr = rr;
+    let mut total = MinStats { candidates: 0, accepted: 0, wall_s: 0.0 };
+    // 1. earlier phases that are not needed
+    let mut j = 0;
+    while phases.len() > 1 && j + 1 < phases.len() && t0.elapsed() < budget {
+        let mut cand = phases.clone();
+        cand.remove(j);
+        let c = Case::from_phases(&cand, cand.len() - 1);
+        let r = run_cases(&[c.clone()], oc, workers, case_timeout(&c)).pop().flatten();
+        total.candidates += 1;
+        match r {
+            Some(r) if class.is_some() && r.violation_class() == class => {
+                phases = cand;
+                best_rr = r;
+                total.accepted += 1;
+            }
+            _ => j += 1,
+        }
+    }
+    // 2. each phase in place
+    for i in (0..phases.len()).rev() {
+        let left = budget.checked_sub(t0.elapsed()).unwrap_or(Duration::from_secs(1)).max(Duration::from_secs(2));
+        let focus = Case::from_phases(&phases, i);
+        let (mc, mr, ms) = minimise(focus, best_rr.clone(), oc, workers, left / (i as u32 + 1), max_candidates);
+        total.candidates += ms.candidates;
+        total.accepted += ms.accepted;
+        if mr.violation_class() == class {
+            phases = mc.phases();
+            best_rr = mr;
+        }
+    }
+    // 3. kills that are not needed
+    for i in 0..phases.len() {
+        if phases[i].switches.iter().any(|s| s.to == crate::sim::KILL) {
+            let mut cand = phases.clone();
+            cand[i].switches.retain(|s| s.to != crate::sim::KILL);
+            let c = Case::from_phases(&cand, cand.len() - 1);
+            let r = run_cases(&[c.clone()], oc, workers, case_timeout(&c)).pop().flatten();
+            total.candidates += 1;
+            if let Some(r) = r {
+                if class.is_some() && r.violation_class() == class {
+                    phases = cand;
+                    best_rr = r;
+                    total.accepted += 1;
+                }
+            }
+        }
+    }
+    total.wall_s = t0.elapsed().as_secs_f64();
+    let k = phases.len() - 1;
+    (Case::from_phases(&phases, k), best_rr, total)
 }
